@@ -1,7 +1,7 @@
 #!/usr/bin/env python
 """
 C06 defect 1 (unchanged code): a complete, well-formed EtherNet/IP frame whose command the server does
-not support (eg. 0x0005; also NOP 0x0000, IndicateStatus 0x0072, Cancel 0x0073) is not answered at all:
+not support (eg. 0x0005, IndicateStatus 0x0072, 0x9999; with or without payload) is not answered at all:
 the session is dropped without a single frame.
 
 Expected (property C06): "an unsupported or unroutable request is answered by one frame with a non-zero
@@ -86,7 +86,7 @@ def main():
     control			= start_simulator()
     failed			= 0
     try:
-        for command,payload in [ (0x0005, b''), (0x0000, b'abcd'), (0x0072, b''), (0x9999, b'\x01\x02') ]:
+        for command,payload in [ (0x0005, b''), (0x0072, b''), (0x9999, b'\x01\x02') ]:
             sock		= socket.create_connection( ('localhost', PORT), timeout=5 )
             sock.sendall( enip_frame( 0x0065, struct.pack( '<HH', 1, 0 )))
             frames,_		= receive( sock, .5 )
